@@ -14,12 +14,14 @@ package verifsched
 
 import (
 	"fmt"
+	"os"
 	"runtime"
 	"sort"
 	"strconv"
 	"strings"
 	"sync"
 	"sync/atomic"
+	"syscall"
 )
 
 type Locker interface {
@@ -275,4 +277,16 @@ func Conflict() (a, b *Point) {
 		}
 	}
 	return nil, nil
+}
+
+// CrashPoint is a fault-injection point the instrumenter places behind a durable write: the process
+// ends abruptly (no deferred calls, no flushing) at the VF_CRASH_AT-th point it passes.
+var crashCount atomic.Int64
+
+func CrashPoint(site string) {
+	n := crashCount.Add(1)
+	if at, err := strconv.ParseInt(os.Getenv("VF_CRASH_AT"), 10, 64); err == nil && at == n {
+		syscall.Kill(syscall.Getpid(), syscall.SIGKILL)
+		select {}
+	}
 }
